@@ -3,7 +3,14 @@
 # property it breaks (development aid).  Expected: every line ends with "CAUGHT".
 tier=${1:-quick}
 cd /verif
-for d in seeded/*/; do
+# newest rounds first (meta.json "round", absent = 1)
+order=$(python3 -c "
+import json,glob,os
+L=[]
+for d in sorted(glob.glob('seeded/*/')):
+    m=json.load(open(d+'meta.json')); L.append((-int(m.get('round',1)), d))
+print(' '.join(d for _,d in sorted(L)))")
+for d in $order; do
   name=$(basename $d)
   prop=$(python3 -c "import json;print(json.load(open('$d/meta.json'))['property'])")
   checks=$prop
